@@ -128,7 +128,8 @@ Section Sem.
   Qed.
   Lemma rcomps_fun F cs : forall k k', rcomps F cs k -> rcomps F cs k' -> k = k'.
   Proof.
-    induction cs as [|[c t] rest IH]; intros k k' H H'; inversion H; inversion H'; subst; auto.
+    induction cs as [|[c t] rest IH]; intros k k' H H';
+      inversion H as [|c0 t0 r0 a b Ha Hb]; inversion H' as [|c1 t1 r1 a' b' Ha' Hb']; subst; auto.
     f_equal; [f_equal; eapply res_fun; eauto|eauto].
   Qed.
 
@@ -141,7 +142,7 @@ Section Sem.
   Proof.
     revert k. induction cs1 as [|[c t] rest IH]; intros k H; simpl in H.
     - exists [], k. repeat split; auto. constructor.
-    - inversion H; subst. destruct (IH _ H4) as (k1 & k2 & H1 & H2 & ->).
+    - inversion H as [|c0 t0 rest0 a b Ha Hb]; subst. destruct (IH _ Hb) as (k1 & k2 & H1 & H2 & ->).
       exists (map (tr t) a ++ k1), k2. repeat split; auto; [constructor; auto|now rewrite app_assoc].
   Qed.
 
@@ -179,10 +180,10 @@ Section Sem.
     (forall c t, In (c, t) cs -> same_look F F' c) ->
     forall k, rcomps F cs k -> exists k', rcomps F' cs k' /\ ceqs k k'.
   Proof.
-    induction cs as [|[c t] rest IH]; intros H k Hk; inversion Hk; subst.
+    induction cs as [|[c t] rest IH]; intros H k Hk; inversion Hk as [|c0 t0 rest0 a b Ha Hb]; subst.
     - exists []; split; [constructor|apply ceqs_refl].
-    - destruct (H c t (or_introl eq_refl) a H3) as (a' & Ha' & Ea).
-      destruct (IH (fun c' t' Hin => H c' t' (or_intror Hin)) b H5) as (b' & Hb' & Eb).
+    - destruct (H c t (or_introl eq_refl) a Ha) as (a' & Ha' & Ea).
+      destruct (IH (fun c' t' Hin => H c' t' (or_intror Hin)) b Hb) as (b' & Hb' & Eb).
       exists (map (tr t) a' ++ b'); split; [constructor; auto|].
       apply ceqs_app; auto. apply ceqs_map; auto. intros; apply tr_rev_comm.
   Qed.
